@@ -764,7 +764,9 @@ Section Conv.
   Definition convert_parenthesized_impl (t : tree) (kids : list bundle) (c : ctx) (emb : bool) : M doc :=
     let e := parenthesized_expr t in
     (* a number or keyword directly after a hash in markup or math keeps its parentheses *)
-    let can_omit := ((is_literal e && negb (emb && negb (kind_eqb (kind_of e) KStr))) || kin (kind_of e) CAN_OMIT_KINDS)
+    let ends_with_dot := match rev (text_of e) with c :: _ => c =? 46 | [] => false end in
+    let can_omit := ((is_literal e && negb (emb && negb (kind_eqb (kind_of e) KStr)) && negb ends_with_dot)
+                     || kin (kind_of e) CAN_OMIT_KINDS)
                     && negb (existsb is_comment_b kids) in
     l <- lst_process (lst_with_fold_style lst_new (get_fold_style c t)) c kids
            (opt_conv is_pattern (fun c b => call b (RPattern c))) ;;
